@@ -1,6 +1,6 @@
 (* C14, stretch: apply_action commutes with the literal renaming, except where apply_action compares a
    user-chosen index name with the derived name ix_{table}__{col} (apply.rs:256-266). *)
-From VV.M1 Require Import Oracles PrefixStrP PrefixP PrefixDiffP.
+From VV.M1 Require Import Oracles PrefixHyp PrefixStrP PrefixP PrefixDiffP.
 From Coq Require Import Lia.
 
 Local Notation P p := (String.append p).
@@ -365,7 +365,7 @@ Qed.
 
 (* replaying a prefixed plan on the literally renamed baseline = literally renaming the replay *)
 Corollary with_prefix_replay : forall p pl s, p <> "" -> no_dot p ->
-  forallb no_inline_fk (p_actions pl) = true -> side_all p s (p_actions pl) = true ->
+  forallb inline_fks_parse (p_actions pl) = true -> side_all p s (p_actions pl) = true ->
   apply_all (literal_schema p s) (p_actions (plan_with_prefix p pl))
   = lift_apply p (apply_all s (p_actions pl)).
 Proof.
@@ -379,7 +379,7 @@ Definition literal_plan (p : string) (pl : plan) : plan :=
 Definition literal_plan_error (p : string) (e : plan_error) : plan_error :=
   match e with PlanReplay e => PlanReplay (literal_perr p e) | PlanDiff e => PlanDiff e end.
 
-Lemma plan_with_prefix_literal_plan p pl : p <> "" -> forallb no_inline_fk (p_actions pl) = true ->
+Lemma plan_with_prefix_literal_plan p pl : p <> "" -> forallb inline_fks_parse (p_actions pl) = true ->
   plan_with_prefix p pl = literal_plan p pl.
 Proof.
   intros Hne Hfk. pose proof (plan_with_prefix_is_literal p pl Hne Hfk) as H.
@@ -406,4 +406,21 @@ Proof.
   assert (Hv : next_version (map (literal_plan p) applied) = next_version applied).
   { unfold next_version. now rewrite map_map. }
   rewrite Hv. destruct (diff_actions baseline current); reflexivity.
+Qed.
+
+(* the history as the tool prefixes it (with_prefix per migration), against the literally renamed models *)
+Theorem plan_next_with_prefix : forall p current applied, p <> "" -> no_dot p ->
+  forallb (fun pl => forallb inline_fks_parse (p_actions pl)) applied = true ->
+  side_all p [] (flat_map p_actions applied) = true ->
+  plan_next (literal_schema p current) (map (plan_with_prefix p) applied)
+  = match plan_next current applied with
+    | Ok pl => Ok (literal_plan p pl)
+    | Err e => Err (literal_plan_error p e)
+    end.
+Proof.
+  intros p current applied Hne Hp Hfk Hs.
+  replace (map (plan_with_prefix p) applied) with (map (literal_plan p) applied).
+  - now apply plan_next_equivariant.
+  - apply map_ext_in. intros pl Hin. symmetry. apply plan_with_prefix_literal_plan; [exact Hne|].
+    rewrite forallb_forall in Hfk. now apply Hfk.
 Qed.
